@@ -1,6 +1,9 @@
 package main
 
 import (
+	"strings"
+	"fmt"
+	"os"
 	"bytes"
 	"context"
 	"encoding/json"
@@ -212,5 +215,27 @@ func runC14(ctx *Ctx) *Report {
 		rep.Record(c, caseKey(c), len(c.Doc) > 8, diffs)
 		rep.Count("massive-reader:" + c.Mode)
 	})
+	// the command line is a caller like any other: a standard output that refuses every byte (/dev/full) must
+	// not be reported as success, however little was to be written
+	if _, err := os.Stat("/dev/full"); err == nil {
+		bin := cliBinary()
+		dir := newJail()
+		defer os.RemoveAll(dir)
+		docs := []string{"- a\n", "- a\n  - b\n  - c\n- d\n", string(spell(forestsUpTo(3, []string{"a", "b"})[40], plainSpelling))}
+		for di, d := range docs {
+			for ai, args := range [][]string{{"output"}, {"output", "--format", "json"}, {"output", "--format", "yaml"}, {"output", "--format", "toml"}, {"output", "--massive"}, {"mkdir", "--dry-run"}} {
+				if args[len(args)-1] == "toml" && strings.Count(d, "\n- ") > 0 {
+					continue
+				}
+				run := execCli(bin, dir, args, []byte(d), "full")
+				var diffs []Diff
+				if run.crashed || run.code == 0 {
+					diffs = append(diffs, Diff{What: "gtree " + strings.Join(args, " ") + " > /dev/full: the write failure is not reported", Real: fmt.Sprintf("exit %d crashed=%v stderr=%q", run.code, run.crashed, run.stderr), Model: "a non-zero exit status"})
+				}
+				rep.Record(map[string]any{"kind": "cli-full", "args": args, "doc": d}, "clifull:"+fmtInt(di)+"/"+fmtInt(ai), true, diffs)
+				rep.Count("cli:/dev/full")
+			}
+		}
+	}
 	return rep
 }
